@@ -366,9 +366,8 @@ func Gen(cfg Config) func(t *rapid.T) Script {
 				sh.writers[op.W] = false
 				if cfg.Mismatch && rapid.IntRange(0, 5).Draw(t, "wrongDigest") == 0 {
 					op.Mode = 1
+					sh.writers[op.W] = true // the session survives a failed commit (and stays failed)
 				}
-			case "upCancel":
-				sh.writers[op.W] = false
 			}
 			s.Ops = append(s.Ops, op)
 		}
